@@ -49,8 +49,46 @@ Proof.
   - apply inst_attr_some in H. tauto.
 Qed.
 
+(* getattr(obj, n) yields a property only if the class lookup yields that property *)
+Lemma inst_lookup_prop : forall s n m,
+  inst_lookup s n = Some m -> is_prop m = true -> class_lookup s n = Some m.
+Proof.
+  unfold inst_lookup. intros s n m H Hp.
+  destruct (class_lookup s n) as [c|] eqn:E.
+  - destruct (is_prop c) eqn:Ec; [auto|].
+    destruct (inst_attr s n) as [a|] eqn:Ea.
+    + inversion H; subst. apply inst_attr_some in Ea. destruct Ea as [_ [Ea _]].
+      unfold is_prop in Hp. unfold is_class_member in Ea. destruct (m_kind m); discriminate.
+    + inversion H; subst. congruence.
+  - apply inst_attr_some in H. destruct H as [_ [H _]].
+    unfold is_prop in Hp. unfold is_class_member in H. destruct (m_kind m); discriminate.
+Qed.
+
 Lemma is_method_not_inst : forall m, is_method m = true -> is_class_member m = true.
 Proof. intros m. unfold is_method, is_class_member. destruct (m_kind m); auto; discriminate. Qed.
+
+Lemma find_hook_some : forall s h m,
+  find_hook s h = Some m -> In m (s_members s) /\ exists h', m_kind m = KHook h'.
+Proof.
+  unfold find_hook. intros s h m H.
+  assert (K : forall c, find (fun m0 => is_hook h m0 && cls_eqb (m_in m0) c) (s_members s) = Some m ->
+              In m (s_members s) /\ exists h', m_kind m = KHook h').
+  { intros c Hf. apply find_some in Hf. destruct Hf as [Hin Hp]. apply andb_true_iff in Hp. destruct Hp as [Hp _].
+    split; [auto|]. unfold is_hook in Hp. destruct (m_kind m); try discriminate. eauto. }
+  destruct (find (fun m0 => is_hook h m0 && cls_eqb (m_in m0) Sub) (s_members s)) eqn:E.
+  - inversion H; subst. eapply K; eauto.
+  - eapply K; eauto.
+Qed.
+
+Lemma hook_effect_in : forall q s h m a,
+  In (m, a) (hook_effect q s h) ->
+  q_hooks_run q = true /\ a = AHook /\ In m (s_members s) /\ exists h', m_kind m = KHook h'.
+Proof.
+  unfold hook_effect. intros q s h m a H.
+  destruct (q_hooks_run q); [|destruct H].
+  destruct (find_hook s h) as [m0|] eqn:E; [|destruct H].
+  destruct H as [H|[]]. inversion H; subst. apply find_hook_some in E. tauto.
+Qed.
 
 Section Gate.
 Variable is_private : text -> bool.
@@ -61,42 +99,294 @@ Notation serve_attr := (serve_attr is_private).
 Notation serve := (serve is_private).
 Notation exposed := (exposed is_private).
 Notation explicitly_exposed := (explicitly_exposed is_private).
+Notation exposed_by_rule := (exposed_by_rule is_private).
 Notation may_serve := (may_serve is_private).
+Notation legit := (legit is_private).
+Notation allowed := (allowed is_private).
+Notation helper_boundary := (helper_boundary is_private).
+Notation hook_boundary := (hook_boundary is_private).
+
+Lemma own_decisive_requested : forall m, own_decisive m = true -> own_requested m = true.
+Proof.
+  unfold own_decisive, own_requested. intros m.
+  destruct (m_kind m) as [| | |g st d| | | |]; intros H; try (rewrite H; reflexivity).
+  destruct (m_mark m); [reflexivity|]. simpl.
+  destruct g as [bg|]; simpl in *.
+  - rewrite orb_false_r in H. rewrite H. reflexivity.
+  - destruct st as [bs|]; simpl in *.
+    + rewrite orb_false_r in H. rewrite H. reflexivity.
+    + destruct d as [bd|]; simpl in *; [|discriminate]. rewrite orb_false_r in H. auto.
+Qed.
 
 Lemma exposed_explicit : forall s m, exposed s m = true -> explicitly_exposed s m /\ markable m = true.
 Proof.
-  unfold Expose.exposed, Expose.explicitly_exposed, own_mark_ok. intros s m H.
+  unfold Expose.exposed, Expose.explicitly_exposed, own_ok, class_marked. intros s m H.
   apply andb_true_iff in H. destruct H as [Hm H]. split; [|auto].
   apply orb_true_iff in H. destruct H as [H|H]; apply andb_true_iff in H; destruct H as [H1 H2].
-  - left. split; auto. apply negb_true_iff; auto.
-  - right. auto.
+  - left. split; [apply own_decisive_requested; auto|]. apply negb_true_iff; auto.
+  - right. apply andb_true_iff in H1. tauto.
 Qed.
 
-Lemma explicit_exposed : forall s m,
-  explicitly_exposed s m -> markable m = true -> is_private (m_name m) = false -> exposed s m = true.
+Lemma rule_exposed : forall s m,
+  exposed_by_rule s m -> markable m = true -> is_private (m_name m) = false -> exposed s m = true.
 Proof.
-  unfold Expose.exposed, Expose.explicitly_exposed, own_mark_ok. intros s m [[H1 H2]|H] Hm Hp; rewrite Hm; simpl.
+  unfold Expose.exposed, Expose.exposed_by_rule, own_ok, class_marked. intros s m [[H1 H2]|[H H']] Hm Hp; rewrite Hm; simpl.
   - rewrite H1, H2. reflexivity.
-  - rewrite H, Hp. simpl. apply orb_true_r.
+  - rewrite H, Hp. simpl. apply orb_true_iff. right.
+    destruct (m_kind m) as [| | |g st d| | | |]; try reflexivity.
+    destruct g; [reflexivity|]. destruct st; [reflexivity|]. destruct d; [reflexivity|]. destruct H'.
 Qed.
 
-(* ---------- _get_attribute, repaired variant ---------- *)
-Lemma get_attribute_none : forall s n e r,
-  get_attribute quirks_none s n = (e, r) ->
-  e = [] /\ forall m, r = ResMethod m ->
-     exists t, n = NStr t /\ is_private t = false /\ inst_lookup s t = Some m /\ is_method m = true /\ exposed s m = true.
+(* ---------- _get_attribute, for every variant in which the two repairs are in place ---------- *)
+Lemma get_attribute_sound : forall q s n e r,
+  repaired q -> get_attribute q s n = (e, r) ->
+  (forall m a, In (m, a) e ->
+     q_hooks_run q = true /\ a = AHook /\ In m (s_members s) /\ (exists h, m_kind m = KHook h) /\
+     exists t, n = NStr t /\ is_private t = false) /\
+  (forall m, r = ResMethod m ->
+     exists t, n = NStr t /\ is_private t = false /\ inst_lookup s t = Some m /\ is_method m = true /\ exposed s m = true) /\
+  (forall m, r = ResHelper m ->
+     q_helper_served q = true /\
+     exists t, n = NStr t /\ is_private t = false /\ inst_lookup s t = Some m /\ m_kind m = KHelper true true).
 Proof.
-  intros s n e r H. unfold Expose.get_attribute in H.
-  destruct n as [t|]; [|inversion H; split; [auto|intros; discriminate]].
-  destruct (is_private t) eqn:Ep; [inversion H; split; [auto|intros; discriminate]|].
-  destruct (inst_lookup s t) as [m0|] eqn:El; [|inversion H; split; [auto|intros; discriminate]].
-  destruct (m_kind m0) eqn:Ek; simpl in H; inversion H; subst; (split; [reflexivity|]); intros m Hr; try discriminate.
-  - destruct (exposed s m0) eqn:Ee; inversion Hr; subst. exists t. unfold is_method. rewrite Ek. auto.
-  - destruct (exposed s m0) eqn:Ee; inversion Hr; subst. exists t. unfold is_method. rewrite Ek. auto.
-  - destruct (exposed s m0) eqn:Ee; inversion Hr; subst. exists t. unfold is_method. rewrite Ek. auto.
-  - destruct helper_class_exposed; discriminate.
+  intros q s n e r Hq H. unfold repaired in Hq. destruct Hq as [Hq1 Hq2]. unfold Expose.get_attribute in H.
+  assert (TRIV : forall (e0 : list effect), e0 = [] -> forall m a, In (m, a) e0 -> False) by (intros; subst; auto).
+  destruct n as [t|]; [|inversion H; repeat split; intros; try discriminate; exfalso; eauto].
+  destruct (is_private t) eqn:Ep; [inversion H; repeat split; intros; try discriminate; exfalso; eauto|].
+  rewrite Hq1 in H. cbn [negb andb] in H.
+  destruct (match class_lookup s t with Some m => is_prop m | None => false end) eqn:Eb;
+    [inversion H; repeat split; intros; try discriminate; exfalso; eauto|].
+  assert (HOOKS : forall h m a, In (m, a) (hook_effect q s h) ->
+     q_hooks_run q = true /\ a = AHook /\ In m (s_members s) /\ (exists h', m_kind m = KHook h') /\
+     exists t0, NStr t = NStr t0 /\ is_private t0 = false).
+  { intros h m a Hin. apply hook_effect_in in Hin. destruct Hin as [A [B [C D]]]. repeat split; auto. exists t. auto. }
+  destruct (inst_lookup s t) as [m0|] eqn:El.
+  - destruct (m_kind m0) eqn:Ek; inversion H; subst; clear H.
+    + (* method *) split; [intros m a Hin; eapply HOOKS; eauto|]. split; intros m Hr.
+      * destruct (exposed s m0) eqn:Ee; inversion Hr; subst. exists t. unfold is_method. rewrite Ek. auto.
+      * destruct (exposed s m0); discriminate.
+    + split; [intros m a Hin; eapply HOOKS; eauto|]. split; intros m Hr.
+      * destruct (exposed s m0) eqn:Ee; inversion Hr; subst. exists t. unfold is_method. rewrite Ek. auto.
+      * destruct (exposed s m0); discriminate.
+    + split; [intros m a Hin; eapply HOOKS; eauto|]. split; intros m Hr.
+      * destruct (exposed s m0) eqn:Ee; inversion Hr; subst. exists t. unfold is_method. rewrite Ek. auto.
+      * destruct (exposed s m0); discriminate.
+    + (* property: impossible, the class lookup would have blocked it *)
+      exfalso. assert (Hp : is_prop m0 = true) by (unfold is_prop; rewrite Ek; reflexivity).
+      rewrite (inst_lookup_prop _ _ _ El Hp), Hp in Eb. discriminate.
+    + split; [intros m a Hin; eapply HOOKS; eauto|]. split; intros; discriminate.
+    + split; [intros m a Hin; eapply HOOKS; eauto|]. split; intros; discriminate.
+    + (* helper *) split; [intros m a Hin; eapply HOOKS; eauto|]. split; intros m Hr.
+      * destruct class_exposed, callable, (q_helper_served q); discriminate.
+      * destruct class_exposed, callable; try discriminate.
+        destruct (q_helper_served q) eqn:Eq; inversion Hr; subst. split; [reflexivity|]. exists t. auto.
+    + (* hook as a function *) split; [intros m a Hin; eapply HOOKS; eauto|]. split; intros m Hr.
+      * destruct (exposed s m0) eqn:Ee; inversion Hr; subst. exists t. unfold is_method. rewrite Ek. auto.
+      * destruct (exposed s m0); discriminate.
+  - remember (t_mem t implicit_attrs) as imp eqn:Eimp. clear Eimp.
+    inversion H; subst; clear H. split; [|split; intros; discriminate].
+    intros m a Hin. apply in_app_or in Hin. destruct Hin as [Hin|Hin]; [eapply HOOKS; eauto|].
+    destruct imp; [exfalso; exact Hin|eapply HOOKS; eauto].
 Qed.
 
+Lemma serve_call_sound : forall q s n k m a,
+  repaired q -> k = RCall \/ k = RBatch ->
+  In (m, a) (fst (serve_call q s n)) -> allowed q s k [n] m a.
+Proof.
+  intros q s n k m a Hq Hk Hin. unfold Expose.serve_call in Hin.
+  destruct (get_attribute q s n) as [e r] eqn:E.
+  destruct (get_attribute_sound q s n e r Hq E) as [He [Hm Hh]].
+  assert (HOOK : In (m, a) e -> allowed q s k [n] m a).
+  { intros Hi. destruct (He m a Hi) as [A [B [C [D [t [Hn Hp]]]]]].
+    right. right. split; [auto|]. split; [auto|]. unfold Expose.hook_boundary.
+    split; [auto|]. split; [auto|]. split; [auto|]. exists t. subst n. split; [left; auto|auto]. }
+  destruct r as [|m0|m0|]; simpl in Hin; auto.
+  - apply in_app_or in Hin. destruct Hin as [Hin|[Hin|[]]]; [auto|]. inversion Hin; subst m0 a.
+    destruct (Hm m eq_refl) as [t [Hn [Hp [Hl [Hme Hex]]]]].
+    apply inst_lookup_some in Hl. destruct Hl as [Hi Hname].
+    left. unfold Expose.legit. subst n. rewrite Hname.
+    split; [auto|]. split; [left; auto|]. split; [auto|]. split; [simpl; auto|].
+    apply exposed_explicit in Hex. tauto.
+  - apply in_app_or in Hin. destruct Hin as [Hin|[Hin|[]]]; [auto|]. inversion Hin; subst m0 a.
+    destruct (Hh m eq_refl) as [Hq3 [t [Hn [Hp [Hl Hkind]]]]].
+    apply inst_lookup_some in Hl. destruct Hl as [Hi Hname].
+    right. left. split; [auto|]. split; [auto|]. unfold Expose.helper_boundary. subst n. rewrite Hname.
+    split; [auto|]. split; [auto|]. split; [left; auto|]. split; auto.
+Qed.
+
+Lemma allowed_widen : forall q s k l l' m a,
+  allowed q s k l m a -> (forall x, In x l -> In x l') -> allowed q s k l' m a.
+Proof.
+  unfold Expose.allowed, Expose.legit, Expose.helper_boundary, Expose.hook_boundary.
+  intros q s k l l' m a H Hs. destruct H as [H|[H|H]].
+  - left. intuition.
+  - right. left. intuition.
+  - right. right. destruct H as [A [B [C [D [E [t [F G]]]]]]]. repeat split; auto. exists t. auto.
+Qed.
+
+Lemma serve_batch_sound : forall q s names m a,
+  repaired q -> In (m, a) (fst (serve_batch q s names)) -> allowed q s RBatch names m a.
+Proof.
+  intros q s names m a Hq. revert m a. induction names as [|n rest IH]; simpl; intros m a Hin; [tauto|].
+  destruct (serve_call q s n) as [e ok] eqn:E.
+  assert (Hc : forall m a, In (m, a) e -> allowed q s RBatch [n] m a).
+  { intros m' a' H'. apply (serve_call_sound q s n RBatch m' a' Hq); [auto|]. rewrite E. auto. }
+  destruct ok; simpl in Hin.
+  - apply in_app_or in Hin. destruct Hin as [Hin|Hin].
+    + eapply allowed_widen; [apply Hc; eauto|]. intros x [Hx|[]]. left; auto.
+    + eapply allowed_widen; [apply IH; eauto|]. intros x Hx. right; auto.
+  - eapply allowed_widen; [apply Hc; eauto|]. intros x [Hx|[]]. left; auto.
+Qed.
+
+(* ---------- property get / set ---------- *)
+Lemma serve_attr_cases : forall q s a n,
+  repaired q ->
+  (serve_attr q s a n = ([], false)) \/
+  (exists t m g st d, n = NStr t /\ serve_attr q s a n = ([(m, a)], true) /\
+     is_private t = false /\ class_lookup s t = Some m /\ m_kind m = KProp g st d /\
+     (match a with AGet => present g | ASet => present st | _ => false end) = true /\ exposed s m = true).
+Proof.
+  intros q s a n Hq. unfold repaired in Hq. destruct Hq as [_ Hq]. unfold Expose.serve_attr.
+  destruct n as [t|]; [|left; reflexivity].
+  rewrite Hq. simpl. destruct (is_private t) eqn:Ep; [left; reflexivity|].
+  destruct (class_lookup s t) as [m|] eqn:El; [|left; reflexivity].
+  destruct (m_kind m) eqn:Ek; try (left; reflexivity).
+  destruct (match a with AGet => present g | ASet => present st | _ => false end) eqn:Ea; [|left; reflexivity].
+  destruct (exposed s m) eqn:Ee; [|left; reflexivity].
+  right. exists t, m, g, st, d. simpl. auto 10.
+Qed.
+
+Lemma present_some : forall o, present o = true -> exists b, o = Some b.
+Proof. destruct o; simpl; intros; [eauto|discriminate]. Qed.
+
+Lemma serve_attr_sound : forall q s a n k m a',
+  repaired q -> (a = AGet /\ k = RGet) \/ (a = ASet /\ k = RSet) ->
+  In (m, a') (fst (serve_attr q s a n)) -> legit s k [n] m a'.
+Proof.
+  intros q s a n k m a' Hq Hk Hin.
+  destruct (serve_attr_cases q s a n Hq) as [H|[t [m0 [g [st [d [Hn [H [Hp [Hl [Hkind [Hacc He]]]]]]]]]]]]; rewrite H in Hin; simpl in Hin; [tauto|].
+  destruct Hin as [Hin|[]]. inversion Hin; subst m0 a'.
+  apply class_lookup_some in Hl. destruct Hl as [Hi [_ Hname]].
+  unfold Expose.legit. subst n. rewrite Hname.
+  split; [auto|]. split; [left; auto|]. split; [auto|]. split.
+  - destruct Hk as [[Ha Hk]|[Ha Hk]]; subst a k; simpl; (split; [reflexivity|]);
+      apply present_some in Hacc; destruct Hacc as [b Hb]; subst.
+    + exists b, st, d. auto.
+    + exists g, b, d. auto.
+  - apply exposed_explicit in He. tauto.
+Qed.
+
+Lemma first_name_in : forall r t, first_name r = NStr t -> In (NStr t) (r_names r).
+Proof. unfold first_name. intros r t. destruct (r_names r); [discriminate|]. intros H; subst. left; auto. Qed.
+
+Lemma first_name_in' : forall r x, In x [first_name r] -> x <> NOther -> In x (r_names r).
+Proof.
+  intros r x [H|[]] Hx. subst x. unfold first_name in *. destruct (r_names r); [congruence|left; auto].
+Qed.
+
+Lemma allowed_first : forall q s k r m a, allowed q s k [first_name r] m a -> allowed q s k (r_names r) m a.
+Proof.
+  unfold Expose.allowed, Expose.legit, Expose.helper_boundary, Expose.hook_boundary.
+  intros q s k r m a H.
+  assert (S : forall t, In (NStr t) [first_name r] -> In (NStr t) (r_names r)).
+  { intros t Ht. apply first_name_in'; [auto|discriminate]. }
+  destruct H as [H|[H|H]].
+  - left. intuition.
+  - right. left. intuition.
+  - right. right. destruct H as [A [B [C [D [E [t [F G]]]]]]]. repeat split; auto. exists t. auto.
+Qed.
+
+Lemma fst_serve : forall q s r, fst (serve q s r) = fst (serve_core is_private q s r).
+Proof. intros. unfold Expose.serve. destruct (serve_core is_private q s r). reflexivity. Qed.
+
+(* gate soundness for every variant with the two repairs: whatever runs is allowed by the property, or lies
+   exactly within the boundary of one of the two open deviations the variant has *)
+Lemma gate_sound_gen : forall q s r m a,
+  repaired q -> In (m, a) (fst (serve q s r)) -> allowed q s (r_kind r) (r_names r) m a.
+Proof.
+  intros q s r m a Hq. rewrite fst_serve. unfold serve_core.
+  destruct (r_kind r) eqn:Ek; intros Hin.
+  - apply allowed_first. eapply serve_call_sound; eauto.
+  - apply serve_batch_sound; auto.
+  - left. assert (L : legit s RGet [first_name r] m a) by (eapply serve_attr_sound; eauto).
+    destruct (allowed_first q s RGet r m a (or_introl L)) as [X|[[_ [X _]]|[_ [X _]]]]; [auto| |];
+      subst a; unfold Expose.legit, acc_fits in L; tauto.
+  - left. assert (L : legit s RSet [first_name r] m a) by (eapply serve_attr_sound; eauto).
+    destruct (allowed_first q s RSet r m a (or_introl L)) as [X|[[_ [X _]]|[_ [X _]]]]; [auto| |];
+      subst a; unfold Expose.legit, acc_fits in L; tauto.
+Qed.
+
+Lemma repaired_none : repaired quirks_none.
+Proof. split; reflexivity. Qed.
+Lemma repaired_asis : repaired quirks_asis.
+Proof. split; reflexivity. Qed.
+
+(* the property's behaviour: only legitimate effects *)
+Lemma gate_sound : forall s r m a,
+  In (m, a) (fst (serve quirks_none s r)) -> legit s (r_kind r) (r_names r) m a.
+Proof.
+  intros s r m a H. apply (gate_sound_gen quirks_none s r m a repaired_none) in H.
+  destruct H as [H|[[H _]|[H _]]]; [auto|discriminate|discriminate].
+Qed.
+
+(* today's code: legitimate effects, or exactly one of the two open deviations *)
+Lemma gate_sound_asis : forall s r m a,
+  In (m, a) (fst (serve quirks_asis s r)) ->
+  legit s (r_kind r) (r_names r) m a \/
+  (a = AHelper /\ helper_boundary s (r_kind r) (r_names r) m) \/
+  (a = AHook /\ hook_boundary s (r_kind r) (r_names r) m).
+Proof.
+  intros s r m a H. apply (gate_sound_gen quirks_asis s r m a repaired_asis) in H.
+  destruct H as [H|[[_ H]|[_ H]]]; auto.
+Qed.
+
+(* ---------- on plain shapes (no hooks, no callable exposed helper) every repaired variant is the property's behaviour ---------- *)
+Lemma plain_no_hook : forall s h, plain_shape s = true -> find_hook s h = None.
+Proof.
+  intros s h Hp. destruct (find_hook s h) as [m|] eqn:E; [|reflexivity].
+  apply find_hook_some in E. destruct E as [Hin [h' Hk]].
+  unfold plain_shape in Hp. rewrite forallb_forall in Hp. specialize (Hp m Hin). rewrite Hk in Hp. discriminate.
+Qed.
+
+Lemma plain_get_attribute : forall q s n,
+  repaired q -> plain_shape s = true -> get_attribute q s n = get_attribute quirks_none s n.
+Proof.
+  intros q s n Hq Hp. unfold repaired in Hq. destruct Hq as [Hq1 Hq2]. unfold Expose.get_attribute, hook_effect.
+  rewrite !(plain_no_hook s _ Hp). rewrite Hq1. simpl.
+  destruct n as [t|]; [|reflexivity].
+  destruct (is_private t); [reflexivity|].
+  destruct (match class_lookup s t with Some m => is_prop m | None => false end); [reflexivity|].
+  assert (E0 : (if q_hooks_run q then @nil effect else []) = []) by (destruct (q_hooks_run q); reflexivity).
+  rewrite E0.
+  destruct (inst_lookup s t) as [m|] eqn:El.
+  - destruct (m_kind m) eqn:Ek; try reflexivity.
+    destruct class_exposed, callable; try reflexivity.
+    exfalso. apply inst_lookup_some in El. destruct El as [Hin _].
+    unfold plain_shape in Hp. rewrite forallb_forall in Hp. specialize (Hp m Hin). rewrite Ek in Hp. discriminate.
+  - destruct (t_mem t implicit_attrs); reflexivity.
+Qed.
+
+Lemma plain_serve_call : forall q s n,
+  repaired q -> plain_shape s = true -> serve_call q s n = serve_call quirks_none s n.
+Proof. intros. unfold Expose.serve_call. rewrite plain_get_attribute; auto. Qed.
+
+Lemma plain_serve_batch : forall q s names,
+  repaired q -> plain_shape s = true -> serve_batch q s names = serve_batch quirks_none s names.
+Proof.
+  intros q s names Hq Hp. induction names as [|n rest IH]; simpl; [reflexivity|].
+  rewrite plain_serve_call, IH; auto.
+Qed.
+
+Lemma plain_agrees : forall q s r,
+  repaired q -> plain_shape s = true -> serve q s r = serve quirks_none s r.
+Proof.
+  intros q s r Hq Hp. unfold Expose.serve, serve_core.
+  assert (A : forall a n, serve_attr q s a n = serve_attr quirks_none s a n).
+  { intros a n. unfold Expose.serve_attr. destruct Hq as [_ Hq]. rewrite Hq. reflexivity. }
+  destruct (r_kind r); rewrite ?plain_serve_call, ?plain_serve_batch, ?A; auto.
+Qed.
+
+(* ---------- the property's behaviour: dichotomy, completeness, batches ---------- *)
 Lemma serve_call_cases : forall s n,
   (serve_call quirks_none s n = ([], false)) \/
   (exists t m, n = NStr t /\ serve_call quirks_none s n = ([(m, ACall)], true) /\
@@ -104,106 +394,15 @@ Lemma serve_call_cases : forall s n,
 Proof.
   intros s n. unfold Expose.serve_call.
   destruct (get_attribute quirks_none s n) as [e r] eqn:E.
-  apply get_attribute_none in E. destruct E as [He Hr]. subst e.
-  destruct r as [|m|]; [left; reflexivity| |left; reflexivity].
-  destruct (Hr m eq_refl) as [t [Hn [Hp [Hl [Hm He]]]]].
-  right. exists t, m. simpl. auto 10.
+  destruct (get_attribute_sound quirks_none s n e r repaired_none E) as [He [Hm Hh]].
+  assert (e = []).
+  { destruct e as [|[m a] e']; [reflexivity|]. destruct (He m a (or_introl eq_refl)) as [X _]. discriminate. }
+  subst e.
+  destruct r as [|m|m|]; [left; reflexivity| | |left; reflexivity].
+  - destruct (Hm m eq_refl) as [t [Hn [Hp [Hl [Hme Hex]]]]]. right. exists t, m. simpl. auto 10.
+  - destruct (Hh m eq_refl) as [X _]. discriminate.
 Qed.
 
-(* a legitimate effect of a call: the shared conclusion *)
-Definition legit (s : shape) (k : rkind) (names : list reqname) (m : member) (a : acc) : Prop :=
-  In m (s_members s) /\ In (NStr (m_name m)) names /\ is_private (m_name m) = false /\
-  acc_fits k a m /\ explicitly_exposed s m.
-
-Lemma serve_call_sound : forall s n k m a,
-  k = RCall \/ k = RBatch ->
-  In (m, a) (fst (serve_call quirks_none s n)) -> legit s k [n] m a.
-Proof.
-  intros s n k m a Hk Hin.
-  destruct (serve_call_cases s n) as [H|[t [m0 [Hn [H [Hp [Hl [Hm He]]]]]]]]; rewrite H in Hin; simpl in Hin; [tauto|].
-  destruct Hin as [Hin|[]]. inversion Hin; subst m0 a.
-  apply inst_lookup_some in Hl. destruct Hl as [Hi Hname].
-  unfold legit. subst n. rewrite Hname.
-  split; [auto|]. split; [left; auto|]. split; [auto|]. split.
-  - simpl. auto.
-  - apply exposed_explicit in He. tauto.
-Qed.
-
-Lemma serve_batch_sound : forall s names m a,
-  In (m, a) (fst (serve_batch quirks_none s names)) -> legit s RBatch names m a.
-Proof.
-  intros s names. induction names as [|n rest IH]; simpl; intros m a Hin; [tauto|].
-  destruct (serve_call quirks_none s n) as [e ok] eqn:E.
-  assert (Hc : forall m a, In (m, a) e -> legit s RBatch [n] m a).
-  { intros m' a' H'. apply (serve_call_sound s n RBatch m' a'); [auto|]. rewrite E. auto. }
-  assert (widen : forall l m a, legit s RBatch l m a -> (forall x, In x l -> In x (n :: rest)) -> legit s RBatch (n :: rest) m a).
-  { unfold legit. intros l m' a' H Hs. intuition. }
-  destruct ok; simpl in Hin.
-  - apply in_app_or in Hin. destruct Hin as [Hin|Hin].
-    + eapply widen; [apply Hc; eauto|]. intros x [Hx|[]]. left; auto.
-    + eapply widen; [apply IH; eauto|]. intros x Hx. right; auto.
-  - eapply widen; [apply Hc; eauto|]. intros x [Hx|[]]. left; auto.
-Qed.
-
-(* ---------- property get / set, repaired variant ---------- *)
-Lemma serve_attr_cases : forall s a n,
-  (serve_attr quirks_none s a n = ([], false)) \/
-  (exists t m g st, n = NStr t /\ serve_attr quirks_none s a n = ([(m, a)], true) /\
-     is_private t = false /\ class_lookup s t = Some m /\ m_kind m = KProp g st /\
-     (match a with AGet => g | ASet => st | ACall => false end) = true /\ exposed s m = true).
-Proof.
-  intros s a n. unfold Expose.serve_attr.
-  destruct n as [t|]; [|left; reflexivity].
-  simpl. destruct (is_private t) eqn:Ep; [left; reflexivity|].
-  destruct (class_lookup s t) as [m|] eqn:El; [|left; reflexivity].
-  destruct (m_kind m) eqn:Ek; try (left; reflexivity).
-  destruct (match a with AGet => has_get | ASet => has_set | ACall => false end) eqn:Ea; [|left; reflexivity].
-  destruct (exposed s m) eqn:Ee; [|left; reflexivity].
-  right. exists t, m, has_get, has_set. simpl. auto 10.
-Qed.
-
-Lemma serve_attr_sound : forall s a n k m a',
-  (a = AGet /\ k = RGet) \/ (a = ASet /\ k = RSet) ->
-  In (m, a') (fst (serve_attr quirks_none s a n)) -> legit s k [n] m a'.
-Proof.
-  intros s a n k m a' Hk Hin.
-  destruct (serve_attr_cases s a n) as [H|[t [m0 [g [st [Hn [H [Hp [Hl [Hkind [Hacc He]]]]]]]]]]]; rewrite H in Hin; simpl in Hin; [tauto|].
-  destruct Hin as [Hin|[]]. inversion Hin; subst m0 a'.
-  apply class_lookup_some in Hl. destruct Hl as [Hi [_ Hname]].
-  unfold legit. subst n. rewrite Hname.
-  split; [auto|]. split; [left; auto|]. split; [auto|]. split.
-  - destruct Hk as [[Ha Hk]|[Ha Hk]]; subst a k; simpl; (split; [reflexivity|]); subst.
-    + exists st. auto.
-    + exists g. auto.
-  - apply exposed_explicit in He. tauto.
-Qed.
-
-Lemma first_name_in : forall r t, first_name r = NStr t -> In (NStr t) (r_names r).
-Proof. unfold first_name. intros r t. destruct (r_names r); [discriminate|]. intros H; subst. left; auto. Qed.
-
-Lemma legit_first : forall s k r m a, legit s k [first_name r] m a -> legit s k (r_names r) m a.
-Proof.
-  unfold legit. intros s k r m a [H1 [H2 H3]]. split; [auto|]. split; [|auto].
-  destruct H2 as [H2|[]]. apply first_name_in. auto.
-Qed.
-
-Lemma fst_serve : forall q s r, fst (serve q s r) = fst (serve_core is_private q s r).
-Proof. intros. unfold Expose.serve. destruct (serve_core is_private q s r). reflexivity. Qed.
-
-(* gate soundness: whatever ran was named by the request, is a method or property accessor of the fitting
-   kind, is explicitly exposed and is not private *)
-Lemma gate_sound : forall s r m a,
-  In (m, a) (fst (serve quirks_none s r)) -> legit s (r_kind r) (r_names r) m a.
-Proof.
-  intros s r m a. rewrite fst_serve. unfold serve_core.
-  destruct (r_kind r) eqn:Ek; intros Hin.
-  - apply legit_first. eapply serve_call_sound; eauto.
-  - apply serve_batch_sound; auto.
-  - apply legit_first. eapply serve_attr_sound; eauto.
-  - apply legit_first. eapply serve_attr_sound; eauto.
-Qed.
-
-(* every single-name request is either refused without any effect, or runs exactly one member and succeeds *)
 Lemma single_dichotomy : forall s k ow n,
   k <> RBatch ->
   let r := {| r_kind := k; r_oneway := ow; r_names := [n] |} in
@@ -213,8 +412,8 @@ Proof.
   intros s k ow n Hk r. unfold Expose.serve, serve_core, first_name, reply_refused, reply_ok. simpl.
   destruct k; try congruence.
   - destruct (serve_call_cases s n) as [H|[t [m [_ [H _]]]]]; rewrite H; [left|right; exists m, ACall]; destruct ow; reflexivity.
-  - destruct (serve_attr_cases s AGet n) as [H|[t [m [g [st [_ [H _]]]]]]]; rewrite H; [left|right; exists m, AGet]; destruct ow; reflexivity.
-  - destruct (serve_attr_cases s ASet n) as [H|[t [m [g [st [_ [H _]]]]]]]; rewrite H; [left|right; exists m, ASet]; destruct ow; reflexivity.
+  - destruct (serve_attr_cases quirks_none s AGet n repaired_none) as [H|[t [m [g [st [d [_ [H _]]]]]]]]; rewrite H; [left|right; exists m, AGet]; destruct ow; reflexivity.
+  - destruct (serve_attr_cases quirks_none s ASet n repaired_none) as [H|[t [m [g [st [d [_ [H _]]]]]]]]; rewrite H; [left|right; exists m, ASet]; destruct ow; reflexivity.
 Qed.
 
 (* completeness: a request the property allows is served, exactly once, with a normal result *)
@@ -226,40 +425,52 @@ Proof.
   unfold Expose.serve, serve_core, first_name, reply_ok. simpl.
   destruct k; try congruence; simpl in Hd.
   - (* call *)
-    destruct a; simpl in Hf; try (destruct Hf as [Hf _]; discriminate).
+    destruct a; simpl in Hf; try (destruct Hf as [Hf _]; first [discriminate | destruct Hf; discriminate]); try tauto.
     destruct Hf as [_ Hm].
     pose proof (inst_lookup_some _ _ _ Hd) as [_ Hname].
     assert (Hx : exposed s m = true).
-    { apply explicit_exposed; auto. unfold markable. rewrite Hm. reflexivity. rewrite Hname. auto. }
-    unfold Expose.serve_call, Expose.get_attribute. rewrite Hp, Hd.
+    { apply rule_exposed; auto. unfold markable. rewrite Hm. reflexivity. rewrite Hname. auto. }
+    assert (Hb : match class_lookup s t with Some m0 => is_prop m0 | None => false end = false).
+    { destruct (class_lookup s t) as [c|] eqn:Ec; [|reflexivity].
+      destruct (is_prop c) eqn:Epc; [|reflexivity].
+      unfold inst_lookup in Hd. rewrite Ec, Epc in Hd. inversion Hd; subst c.
+      unfold is_prop in Epc. unfold is_method in Hm. destruct (m_kind m); discriminate. }
+    unfold Expose.serve_call, Expose.get_attribute, hook_effect. simpl. rewrite Hp, Hb, Hd. simpl.
     unfold is_method in Hm. destruct (m_kind m); try discriminate; rewrite Hx; destruct ow; reflexivity.
   - (* get *)
-    destruct a; simpl in Hf; try (destruct Hf as [Hf _]; first [discriminate | destruct Hf; discriminate]).
-    destruct Hf as [_ [st Hkind]].
+    destruct a; simpl in Hf; try (destruct Hf as [Hf _]; first [discriminate | destruct Hf; discriminate]); try tauto.
+    destruct Hf as [_ [b [st [d Hkind]]]].
     pose proof (class_lookup_some _ _ _ Hd) as [_ [_ Hname]].
     assert (Hx : exposed s m = true).
-    { apply explicit_exposed; auto. unfold markable, is_prop. rewrite Hkind. apply orb_true_r. rewrite Hname. auto. }
+    { apply rule_exposed; auto. unfold markable, is_prop. rewrite Hkind. apply orb_true_r. rewrite Hname. auto. }
     unfold Expose.serve_attr. simpl. rewrite Hp, Hd, Hkind, Hx. destruct ow; reflexivity.
   - (* set *)
-    destruct a; simpl in Hf; try (destruct Hf as [Hf _]; first [discriminate | destruct Hf; discriminate]).
-    destruct Hf as [_ [g Hkind]].
+    destruct a; simpl in Hf; try (destruct Hf as [Hf _]; first [discriminate | destruct Hf; discriminate]); try tauto.
+    destruct Hf as [_ [g [b [d Hkind]]]].
     pose proof (class_lookup_some _ _ _ Hd) as [_ [_ Hname]].
     assert (Hx : exposed s m = true).
-    { apply explicit_exposed; auto. unfold markable, is_prop. rewrite Hkind. apply orb_true_r. rewrite Hname. auto. }
+    { apply rule_exposed; auto. unfold markable, is_prop. rewrite Hkind. apply orb_true_r. rewrite Hname. auto. }
     unfold Expose.serve_attr. simpl. rewrite Hp, Hd, Hkind, Hx. destruct ow; reflexivity.
 Qed.
 
-(* the batch loop is the sequence of single calls, cut after the longest prefix of names that are served *)
-Lemma batch_as_calls : forall s names,
-  fst (serve_batch quirks_none s names) =
-    flat_map (fun n => fst (serve_call quirks_none s n)) (ok_prefix is_private s names) /\
-  snd (serve_batch quirks_none s names) = forallb (call_ok is_private s) names.
+(* the batch loop, for every variant: the effects of the attempted members in order; it succeeds iff all are served *)
+Lemma batch_as_calls : forall q s names,
+  fst (serve_batch q s names) = flat_map (fun n => fst (serve_call q s n)) (tried is_private q s names) /\
+  snd (serve_batch q s names) = forallb (call_ok is_private q s) names.
 Proof.
-  intros s names. induction names as [|n rest [IH1 IH2]]; simpl; [auto|].
-  assert (Hc : call_ok is_private s n = snd (serve_call quirks_none s n)) by reflexivity.
-  rewrite Hc.
-  destruct (serve_call_cases s n) as [H|[t [m [_ [H _]]]]]; rewrite H; simpl; [auto|].
-  rewrite ?H. simpl. rewrite IH1, IH2. auto.
+  intros q s names. induction names as [|n rest [IH1 IH2]]; simpl; [auto|].
+  unfold call_ok at 1 2.
+  destruct (serve_call q s n) as [e ok] eqn:E. destruct ok; simpl.
+  - rewrite IH1, IH2. auto.
+  - rewrite app_nil_r. auto.
+Qed.
+
+(* under the property's behaviour a member that is not served contributes no effect at all *)
+Lemma refused_call_no_effect : forall s n,
+  call_ok is_private quirks_none s n = false -> fst (serve_call quirks_none s n) = [].
+Proof.
+  intros s n H. unfold call_ok in H.
+  destruct (serve_call_cases s n) as [H0|[t [m [_ [H0 _]]]]]; rewrite H0 in *; [reflexivity|discriminate].
 Qed.
 
 Lemma serve_result_core : forall q s k n e,
@@ -304,13 +515,23 @@ Proof.
   - apply inst_attr_some in H. destruct H as [_ [H _]]. congruence.
 Qed.
 
-Definition runs_call (s : shape) (n : text) : Prop :=
-  exists m, serve quirks_none s {| r_kind := RCall; r_oneway := false; r_names := [NStr n] |} = ([(m, ACall)], RepResult).
-Definition runs_attr (s : shape) (k : rkind) (a : acc) (n : text) : Prop :=
-  exists m, serve quirks_none s {| r_kind := k; r_oneway := false; r_names := [NStr n] |} = ([(m, a)], RepResult).
+Definition runs_call (q : quirks) (s : shape) (n : text) : Prop :=
+  exists m, serve q s {| r_kind := RCall; r_oneway := false; r_names := [NStr n] |} = ([(m, ACall)], RepResult).
+Definition runs_attr (q : quirks) (s : shape) (k : rkind) (a : acc) (n : text) : Prop :=
+  exists m, serve q s {| r_kind := k; r_oneway := false; r_names := [NStr n] |} = ([(m, a)], RepResult).
+
+Lemma exposed_rule_of : forall s m, exposed s m = true -> exposed_by_rule s m.
+Proof.
+  unfold Expose.exposed, Expose.exposed_by_rule, own_ok, class_marked. intros s m H.
+  apply andb_true_iff in H. destruct H as [_ H].
+  apply orb_true_iff in H. destruct H as [H|H]; apply andb_true_iff in H; destruct H as [H1 H2].
+  - left. split; [auto|apply negb_true_iff; auto].
+  - right. apply andb_true_iff in H1. destruct H1 as [H1 _]. split; [auto|].
+    destruct (m_kind m) as [| | |g st d| | | |]; auto. destruct g, st, d; simpl in H2; auto; discriminate.
+Qed.
 
 Lemma meta_methods_exact : forall s n,
-  no_shadow s = true -> (In n (meta_methods is_private s) <-> runs_call s n).
+  no_shadow s = true -> (In n (meta_methods is_private s) <-> runs_call quirks_none s n).
 Proof.
   intros s n Hs. unfold meta_methods, runs_call. rewrite filter_In. unfold advertised. split.
   - intros [Hin H]. apply andb_true_iff in H. destruct H as [Hp H]. apply negb_true_iff in Hp.
@@ -318,7 +539,7 @@ Proof.
     apply andb_true_iff in H. destruct H as [Hm He].
     exists m. apply (exposed_served s RCall false n m ACall); [discriminate|].
     unfold Expose.may_serve. simpl. split; [apply no_shadow_lookup; auto|]. split; [auto|]. split; [auto|].
-    apply exposed_explicit in He. tauto.
+    apply exposed_rule_of; auto.
   - intros [m H]. apply serve_result_core in H. change (serve_call quirks_none s (NStr n) = ([(m, ACall)], true)) in H.
     destruct (serve_call_cases s (NStr n)) as [H0|[t [m0 [Hn [H0 [Hp [Hl [Hm He]]]]]]]]; rewrite H0 in H; [discriminate|].
     inversion Hn; subst t. inversion H; subst m0.
@@ -328,7 +549,7 @@ Qed.
 
 Lemma meta_attrs_exact : forall s n,
   props_have_accessor s = true ->
-  (In n (meta_attrs is_private s) <-> runs_attr s RGet AGet n \/ runs_attr s RSet ASet n).
+  (In n (meta_attrs is_private s) <-> runs_attr quirks_none s RGet AGet n \/ runs_attr quirks_none s RSet ASet n).
 Proof.
   intros s n Hpa. unfold meta_attrs, runs_attr. rewrite filter_In. unfold advertised. split.
   - intros [Hin H]. apply andb_true_iff in H. destruct H as [Hp H]. apply negb_true_iff in Hp.
@@ -336,21 +557,21 @@ Proof.
     apply andb_true_iff in H. destruct H as [Hm He].
     pose proof (class_lookup_some _ _ _ El) as [Hi _].
     unfold props_have_accessor in Hpa. rewrite forallb_forall in Hpa. specialize (Hpa m Hi).
-    unfold is_prop in Hm. destruct (m_kind m) as [| | |g st| | |] eqn:Ek; try discriminate.
-    pose proof (exposed_explicit _ _ He) as [Hx _].
-    destruct g.
+    unfold is_prop in Hm. destruct (m_kind m) as [| | |g st d| | | |] eqn:Ek; try discriminate.
+    pose proof (exposed_rule_of _ _ He) as Hx.
+    destruct g as [bg|].
     + left. exists m. apply (exposed_served s RGet false n m AGet); [discriminate|].
-      unfold Expose.may_serve. simpl. split; [auto|]. split; [auto|]. split; [|auto]. split; [auto|]. exists st. auto.
-    + destruct st; [|discriminate].
+      unfold Expose.may_serve. simpl. split; [auto|]. split; [auto|]. split; [|auto]. split; [auto|]. exists bg, st, d. auto.
+    + destruct st as [bs|]; [|discriminate].
       right. exists m. apply (exposed_served s RSet false n m ASet); [discriminate|].
-      unfold Expose.may_serve. simpl. split; [auto|]. split; [auto|]. split; [|auto]. split; [auto|]. exists false. auto.
+      unfold Expose.may_serve. simpl. split; [auto|]. split; [auto|]. split; [|auto]. split; [auto|]. exists None, bs, d. auto.
   - assert (K : forall a k, (a = AGet /\ k = RGet) \/ (a = ASet /\ k = RSet) ->
        (exists m, serve quirks_none s {| r_kind := k; r_oneway := false; r_names := [NStr n] |} = ([(m, a)], RepResult)) ->
        In n (class_names s) /\ negb (is_private n) && match class_lookup s n with Some m => is_prop m && exposed s m | None => false end = true).
     { intros a k Hk [m H]. apply serve_result_core in H.
       assert (H' : serve_attr quirks_none s a (NStr n) = ([(m, a)], true)).
       { destruct Hk as [[? ?]|[? ?]]; subst a k; exact H. }
-      destruct (serve_attr_cases s a (NStr n)) as [H0|[t [m0 [g [st [Hn [H0 [Hp [Hl [Hkind [Hacc He]]]]]]]]]]]; rewrite H0 in H'; [discriminate|].
+      destruct (serve_attr_cases quirks_none s a (NStr n) repaired_none) as [H0|[t [m0 [g [st [d [Hn [H0 [Hp [Hl [Hkind [Hacc He]]]]]]]]]]]]; rewrite H0 in H'; [discriminate|].
       inversion Hn; subst t. inversion H'; subst m0.
       split; [eapply class_names_in; eauto|]. rewrite Hp, Hl, He. unfold is_prop. rewrite Hkind. reflexivity. }
     intros [H|H]; [apply (K AGet RGet)|apply (K ASet RSet)]; auto.
@@ -366,10 +587,58 @@ Proof.
   rewrite Hm, He. reflexivity.
 Qed.
 
+(* the same for today's code on plain shapes *)
+Lemma meta_methods_exact_asis : forall s n,
+  plain_shape s = true -> no_shadow s = true -> (In n (meta_methods is_private s) <-> runs_call quirks_asis s n).
+Proof.
+  intros s n Hp Hs. unfold runs_call. rewrite (plain_agrees quirks_asis s _ repaired_asis Hp). apply meta_methods_exact; auto.
+Qed.
+
+(* ---------- the metadata cache over a history of get_metadata calls on several registered objects ---------- *)
+Definition injective (key : nat -> nat) : Prop := forall a b, key a = key b -> a = b.
+Definition cache_ok (key : nat -> nat) (classes : list shape) (c : cache) : Prop :=
+  forall cid md, cache_find (key cid) c = Some md -> md = meta_of is_private (nth cid classes empty_shape).
+
+Lemma run_metadata_exact : forall key classes hist c,
+  injective key -> cache_ok key classes c ->
+  run_metadata is_private key classes c hist = map (fun cid => meta_of is_private (nth cid classes empty_shape)) hist.
+Proof.
+  intros key classes hist. induction hist as [|cid rest IH]; intros c Hinj Hc; simpl; [reflexivity|].
+  unfold get_metadata. destruct (cache_find (key cid) c) as [md|] eqn:E.
+  - rewrite (Hc cid md E). f_equal. apply IH; auto.
+  - f_equal. apply IH; auto.
+    intros cid' md'. simpl. destruct (Nat.eqb (key cid') (key cid)) eqn:Ek.
+    + apply Nat.eqb_eq in Ek. apply Hinj in Ek. subst cid'. intros H. inversion H. reflexivity.
+    + apply Hc.
+Qed.
+
+Lemma metadata_history_exact : forall key classes objs hist,
+  injective key ->
+  run_metadata is_private key classes [] (map (class_of objs) hist) =
+  map (fun o => meta_of is_private (shape_of classes objs o)) hist.
+Proof.
+  intros key classes objs hist Hinj. rewrite run_metadata_exact; auto.
+  - rewrite map_map. reflexivity.
+  - intros cid md H. discriminate.
+Qed.
+
+Lemma id_injective : injective (fun k => k).
+Proof. intros a b H. exact H. Qed.
+
 (* a private name is never served and never advertised, whatever the shape *)
 Lemma private_never_served : forall s r m a,
   In (m, a) (fst (serve quirks_none s r)) -> is_private (m_name m) = false.
-Proof. intros s r m a H. apply gate_sound in H. unfold legit in H. tauto. Qed.
+Proof. intros s r m a H. apply gate_sound in H. unfold Expose.legit in H. tauto. Qed.
+
+(* ... and in today's code no private name is ever the name on whose behalf anything runs *)
+Lemma private_never_served_asis : forall s r m a,
+  In (m, a) (fst (serve quirks_asis s r)) -> a <> AHook -> is_private (m_name m) = false.
+Proof.
+  intros s r m a H Ha. apply gate_sound_asis in H. destruct H as [H|[[_ H]|[H _]]].
+  - unfold Expose.legit in H. tauto.
+  - unfold Expose.helper_boundary in H. tauto.
+  - congruence.
+Qed.
 
 Lemma private_never_advertised : forall s n,
   is_private n = true ->
